@@ -796,15 +796,15 @@ Proof.
   { intros q. now rewrite wflags_measures, wflags_flat_map. }
   split.
   - unfold c. rewrite resets_wf_app, (no_reset_resets_wf nq sfx NR), andb_true_r.
-    destruct idx; simpl; [now apply final_resets_wf|assumption].
+    destruct idx; cbn [maybe_remove_final]; [now apply final_resets_wf|assumption].
   - intros q Q. unfold c. rewrite wflags_app.
     pose proof (no_reuse_wire_hyp env nq sub' q H) as WH.
     destruct idx as [|i idx'].
-    + simpl. unfold wflags at 1. rewrite final_wire by assumption. rewrite flags_trim_resets.
+    + cbn [maybe_remove_final]. unfold wflags at 1. rewrite (final_wire nq _ q W0 Q). rewrite flags_trim_resets.
       fold (wflags q (measures_from K (flat_map (splice env) sub'))). rewrite FL.
       pose proof (wire_pattern env nq q sub' [] WH eq_refl (fun _ => eq_refl)) as P. rewrite app_nil_r in P.
       apply LFb_Wb, LFb_app; [|now apply no_reset_allfalse]. unfold LFb. rewrite dropT_trimT. exact P.
-    + simpl maybe_remove_final. rewrite FL. apply wire_pattern; [assumption|now apply no_reset_allfalse|].
+    + simpl maybe_remove_final. rewrite FL. apply (wire_pattern env nq); [assumption|now apply no_reset_allfalse|].
       intros (x & I & S). apply untouched_wflags. intros y Iy. apply (AV ltac:(discriminate) x q I S y Iy).
 Qed.
 
@@ -885,4 +885,50 @@ Theorem suffix_avoids_sourcesb_sound env sub idx :
 Proof.
   unfold suffix_avoids_sourcesb. rewrite forallb_forall. intros H x q I S Q. specialize (H x I).
   rewrite S in H. simpl in H. apply negb_true_iff in H. apply existsb_eqb_In in Q. congruence.
+Qed.
+
+(* ====================================================================== *)
+(* G. values                                                               *)
+(* ====================================================================== *)
+
+Lemma hstep_hc_other s ti k : ~ In k (ics (snd ti)) -> nth k (hc (hstep s ti)) None = nth k (hc s) None.
+Proof.
+  destruct ti as [tag i]. simpl. intros H. unfold hstep.
+  destruct (iop i); simpl; try reflexivity.
+  - destruct (iqs i) as [|q r]; [reflexivity|]. destruct (ics i) as [|c r']; simpl; [reflexivity|].
+    apply nth_upd_other. intros E. apply H. now left.
+  - destruct (iqs i); reflexivity.
+  - destruct (iqs i) as [|a [|b r]]; reflexivity.
+  - destruct (iqs i); reflexivity.
+Qed.
+
+Lemma hrun_hc_other k c : forall s, (forall ti, In ti c -> ~ In k (ics (snd ti))) ->
+  nth k (hc (hrun s c)) None = nth k (hc s) None.
+Proof.
+  induction c as [|ti c IH]; intros s H; [reflexivity|]. rewrite hrun_cons, IH.
+  - apply hstep_hc_other. apply H. now left.
+  - intros t I. apply H. now right.
+Qed.
+
+Lemma tag_from_snd c : forall n ti, In ti (tag_from n c) -> In (snd ti) c.
+Proof.
+  induction c as [|x c IH]; intros n ti I; [destruct I|]. simpl in I.
+  destruct (creates_term x); destruct I as [<-|I]; simpl; auto; right; eapply IH; eauto.
+Qed.
+
+(* the three passes: every classical bit keeps its Herbrand term (C12) *)
+Theorem passes_values nq nc c : wf nq nc c = true ->
+  hc (denote nq nc (three_passes nq c)) = hc (denote nq nc c).
+Proof. intros W. exact (proj1 (pipeline_semantics nq nc c W)). Qed.
+
+(* the repair: removing the final resets of d BEFORE a suffix is appended leaves the term of every classical
+   bit that the suffix does not write unchanged (the only bit the dummy suffix writes is the dummy bit) *)
+Theorem repair_values nq nc d sfx k : wf nq nc d = true -> (forall y, In y sfx -> ~ In k (ics y)) ->
+  nth k (hc (denote nq nc (remove_final_resets nq d ++ sfx))) None = nth k (hc (denote nq nc (d ++ sfx))) None.
+Proof.
+  intros W H. unfold denote, tagc. rewrite !tag_from_app, !hrun_app.
+  rewrite (hrun_hc_other k (tag_from (0 + ntags (remove_final_resets nq d)) sfx))
+    by (intros ti I; apply H; eapply tag_from_snd; eauto).
+  rewrite (hrun_hc_other k (tag_from (0 + ntags d) sfx)) by (intros ti I; apply H; eapply tag_from_snd; eauto).
+  pose proof (proj1 (final_semantics nq nc d W)) as E. unfold denote, tagc in E. now rewrite E.
 Qed.
